@@ -25,6 +25,19 @@ import (
 //go:embed ctl/ctl_linux.go.txt
 var ctlLinux string
 
+//go:embed ctl/ctl_kqueue.go.txt
+var ctlKqueue string
+
+func ctlFor(goos string) string {
+	switch goos {
+	case "linux":
+		return ctlLinux
+	case "freebsd", "openbsd", "netbsd", "dragonfly", "darwin":
+		return ctlKqueue
+	}
+	return ""
+}
+
 const ctlFileName = "zz_verif_ctl_overlay.go"
 
 type Config struct{ GOOS, GOARCH string }
@@ -72,8 +85,8 @@ func isCtl(f *ssa.Function) bool {
 }
 
 func loadProgram(repo string, cfg Config) (*Program, error) {
-	if cfg.GOOS == "linux" && os.Getenv("VERIF_NO_CONTROLS") == "" {
-		p, err := loadProgramOverlay(repo, cfg, map[string][]byte{filepath.Join(repo, ctlFileName): []byte(ctlLinux)})
+	if ctlFor(cfg.GOOS) != "" && os.Getenv("VERIF_NO_CONTROLS") == "" {
+		p, err := loadProgramOverlay(repo, cfg, map[string][]byte{filepath.Join(repo, ctlFileName): []byte(ctlFor(cfg.GOOS))})
 		if err == nil {
 			p.Ctl = true
 			return p, nil
